@@ -256,6 +256,15 @@ func (ni *NodeInfo) ConsolidateSharedPodInfoToDifferentGPU(ti *pod_info.PodInfo)
 	return ni.addTask(ti, true)
 }
 
+// RestoreTaskEntry re-registers a task whose resources are still accounted on the node but whose entry was
+// replaced by ConsolidateSharedPodInfoToDifferentGPU, once that replacement has been removed again.
+func (ni *NodeInfo) RestoreTaskEntry(ti *pod_info.PodInfo) {
+	key := pod_info.PodKey(ti.Pod)
+	if _, found := ni.PodInfos[key]; !found {
+		ni.PodInfos[key] = ti.Clone()
+	}
+}
+
 func (ni *NodeInfo) isGpuReleasingFromSharedTasks(gpuGroup string) bool {
 	usedSharedGPUsMemory, found := ni.UsedSharedGPUsMemory[gpuGroup]
 	if !found || usedSharedGPUsMemory == 0 {
